@@ -95,6 +95,21 @@ def rule_ckpt(ctx: Ctx) -> None:
             pos = {x for x, pol, via in at if pol}
             okw = bool(pos & fw_guard)
             okn = label != 'load_state_dict' or 'found_name==name' in pos or 'name==found_name' in pos
+            if label == 'load_state_dict':
+                # the saved entry is *searched* by name: every saved entry is compared with every registered layer (nested
+                # loops) — pairing the two sequences position by position (zip) only filters the pairs that happen to align
+                lps = [lp for lp in flow.enclosing_loops(p, f, c) if isinstance(lp, ast.For)]
+                zipped = [lp for lp in lps if any(isinstance(x, ast.Call) and isinstance(x.func, ast.Name) and x.func.id == 'zip' for x in ast.walk(lp.iter))]
+                over_saved = any('.items()' in norm(lp.iter) and 'self._layers' not in norm(lp.iter) for lp in lps)
+                over_reg = any('self._layers' in norm(lp.iter) for lp in lps)
+                # or looked up by the layer's name in the saved dict (`layers[name]`, `layers.get(name)`)
+                by_key = over_reg and any((isinstance(x, ast.Subscript) and isinstance(x.value, ast.Name) and 'layer' in x.value.id and isinstance(x.slice, ast.Name) and 'name' in x.slice.id)
+                                          or (isinstance(x, ast.Call) and isinstance(x.func, ast.Attribute) and x.func.attr == 'get' and isinstance(x.func.value, ast.Name)
+                                              and 'layer' in x.func.value.id and len(x.args) >= 1 and isinstance(x.args[0], ast.Name) and 'name' in x.args[0].id) for x in p.nodes(f))
+                over_saved = over_saved or by_key
+                ctx.check(not zipped and over_saved and over_reg, 'COH-LOADGUARD', f, 'load_state_dict: every saved entry is compared with every registered layer', norm(c) + ' search',
+                          f'load_state_dict: {norm(c)[:80]} is reached from loops over {[norm(lp.iter)[:60] for lp in lps]}; the saved entry of a layer must be found by '
+                          'searching all saved entries for the layer name (saved order is gather order, not registration order), not by pairing positions', c)
             ctx.check(okw and okn, 'COH-LOADGUARD', f, f'{label}: layer loaded on factor_worker(name) == get_rank(), matched by name', norm(c),
                       f'{label}: {norm(c)} under {sorted(pos)}; factors must be restored exactly on the rank that gathers and inverts the layer (factor_worker(name, "A") == get_rank()), for the entry with the same layer name', c)
         if not loads:
